@@ -25,12 +25,26 @@
    absent from store and cache is never saved under again - PF's invariant with
    all such IDs in the dead set, the handler's session being stored - and an ID
    enters graves when it leaves the store), nor cached (LI): the loop skips it.
-   So no replaced-ID record is ever touched. C05R_needs_fault_free shows the
+   So no replaced-ID record is ever touched.
+
+   THE INSTANT. C05U_expired_ref measures the grace period from the record's
+   lastAccess. C05U_replaced_instant ties that to the replacement: a replaced-ID
+   record names the ID RegenerateID drew; if that ID was drawn by request step r
+   (clock T, frozen during a request), the record's lastAccess is T or - once it
+   has passed through the JSON codec, which keeps instants to the second - T
+   floored to the second, wherever it is found stored later (Proofs/C05RUser5.v,
+   C05RUser7.v). SLACK: hence Expired() of that record is true from grace after
+   the replacement on, and is never true earlier than ONE SECOND before that
+   (C05U_expired_ref_instant); exactly at grace when lastAccess = T (nothing
+   floored: gob, or T a whole second). "Not before its grace period has ended"
+   holds up to < 1 s behind a JSON store.
+
+   C05R_needs_fault_free shows the
    statement false after a fault. No refutation: the suspected defect of
    Expired() on replaced-ID records does not exist in fault-free runs. *)
 From Sessions Require Import Model.Base Model.Sess Model.Hist Proofs.SessDefs Proofs.HistInv Proofs.HistInv3
   Proofs.HistLift Proofs.HistLift4 Proofs.ReplRecStmt Proofs.C05RUser Proofs.C05RUser2 Proofs.C05RUser3
-  Proofs.C05RUser4 Proofs.C05RUserEx.
+  Proofs.C05RUser4 Proofs.C05RUser6 Proofs.C05RUser7 Proofs.C05RUserEx.
 Local Open Scope Z_scope.
 
 (* ---- the vocabulary ---- *)
@@ -82,6 +96,56 @@ Theorem C05U_expired_ref :
     (0 <= c_idexpiry cf)%Z -> (c_grace cf <= max64)%Z ->
     (expired cf r t = true <-> (c_grace cf <= since (r_access r) t)%Z).
 Proof. exact expired_ref_full. Qed.
+
+(* the instant Expired() measures from is the instant of the replacement (the
+   clock of the request step that drew the ID the record names), up to the JSON
+   codec's flooring to the second *)
+Theorem C05U_flo_meaning : forall t, flo t = t - t mod second /\ flo t <= t < flo t + second.
+Proof. exact (fun t => conj eq_refl (flo_bounds t)). Qed.
+
+Theorem C05U_replaced_instant : forall w r hs2,
+  LI (w_st w) /\ R (w_st w) /\ GA (w_st w) ->
+  rq_plan r = [] -> rq_crash r = None -> Forall ff_hop hs2 -> Forall crash_free hs2 ->
+  let w1 := fst (step w (HReq r)) in
+  forall k rc n, lookup (store (w_st (after w1 hs2))) k = Some rc -> r_ref rc = Some (KGen n) ->
+    (supply (w_st w) <= n < supply (w_st w1))%N ->
+    r_created rc = r_access rc /\ (r_access rc = now (w_st w) \/ r_access rc = flo (now (w_st w))).
+Proof. exact replaced_instant. Qed.
+
+(* in particular from every world a fault-free, crash-free history reaches *)
+Theorem C05U_reach_invariants : forall c hs, Forall ff_hop hs -> Forall crash_free hs ->
+  LI (w_st (reach c hs)) /\ R (w_st (reach c hs)) /\ GA (w_st (reach c hs)).
+Proof. exact TW_reach. Qed.
+
+(* C05's last clause measured from the replacement, the slack explicit *)
+Theorem C05U_expired_ref_instant : forall w r hs2 cf t,
+  LI (w_st w) /\ R (w_st w) /\ GA (w_st w) ->
+  rq_plan r = [] -> rq_crash r = None -> Forall ff_hop hs2 -> Forall crash_free hs2 ->
+  (0 <= c_idexpiry cf)%Z -> (c_grace cf <= max64)%Z ->
+  let w1 := fst (step w (HReq r)) in let T := now (w_st w) in
+  forall k rc n, lookup (store (w_st (after w1 hs2))) k = Some rc -> r_ref rc = Some (KGen n) ->
+    (supply (w_st w) <= n < supply (w_st w1))%N ->
+    ((c_grace cf <= since T t)%Z -> expired cf rc t = true) /\
+    (expired cf rc t = true -> (c_grace cf - second < since T t)%Z) /\
+    (r_access rc = T -> (expired cf rc t = true <-> (c_grace cf <= since T t)%Z)).
+Proof. exact expired_ref_instant. Qed.
+
+(* non-vacuity: behind a JSON store a rotation at 10.7 s; after a wait,
+   LogOut(userID), a purge and cache loss the record under the old ID names
+   KGen 2 (drawn by that step) and carries 10 s = 10.7 s floored *)
+Theorem C05U_ex_instant :
+  let w := reach cfU hist_I1 in let w1 := fst (step w (HReq req_I)) in
+  now (w_st w) = 10 * sec + 700000000 /\ supply (w_st w) = 2%N /\ supply (w_st w1) = 3%N /\
+  option_map (fun rc => (r_ref rc, r_created rc, r_access rc)) (lookup (store (w_st (after w1 hist_I2))) (KGen 1)) =
+    Some (Some (KGen 2), 10 * sec, 10 * sec) /\
+  flo (10 * sec + 700000000) = 10 * sec.
+Proof. exact instant_run. Qed.
+
+Theorem C05U_ex_instant_applies :
+  let w := reach cfU hist_I1 in let w1 := fst (step w (HReq req_I)) in
+  forall rc, lookup (store (w_st (after w1 hist_I2))) (KGen 1) = Some rc -> r_ref rc = Some (KGen 2) ->
+    r_created rc = r_access rc /\ (r_access rc = now (w_st w) \/ r_access rc = flo (now (w_st w))).
+Proof. exact instant_applies. Qed.
 
 (* the stale user index: a deleted ID is never stored again *)
 Theorem C05U_stale_index_dead : forall c hs, Forall ff_hop hs -> Forall crash_free hs ->
@@ -160,6 +224,12 @@ Print Assumptions C05U_statement.
 Print Assumptions C05U_replaced_records.
 Print Assumptions C05U_expired_ref.
 Print Assumptions C05U_stale_index_dead.
+Print Assumptions C05U_flo_meaning.
+Print Assumptions C05U_replaced_instant.
+Print Assumptions C05U_reach_invariants.
+Print Assumptions C05U_expired_ref_instant.
+Print Assumptions C05U_ex_instant.
+Print Assumptions C05U_ex_instant_applies.
 Print Assumptions C05U_step_nuw.
 Print Assumptions C05U_loop.
 Print Assumptions C05U_listed.
